@@ -48,14 +48,24 @@ def run(ck, rng, tier):
     N = 40 if not thorough else 400
     for c in range(N):
         n, m = rng.randint(6, 40 if thorough else 24), rng.randint(2, 12 if thorough else 7)
+        nproc = rng.choice((1, 1, 2, 3, 8, 16))
+        if c < 6:      # every run: wide matrices seen by many threads (more threads than rows)
+            n, m, nproc = rng.randint(4, 9), rng.randint(12, 22), rng.choice((8, 16))
         scaling = rng.choice((0, 0, 1, 2, 3, 4, 5, -1))
         mag = rng.choice((1.0, 1.0, 30.0, 0.05, 1e-3)) if scaling in (0, -1) else rng.choice((1.0, 30.0, 0.05))
         X, s = gen_separated(rng, n, m, mag)
         npc = rng.randint(1, min(3, len(s)))
+        # the property presumes rank >= number of components AFTER preprocessing (a column whose scale
+        # falls inside the zero guard is dropped by the preprocessing; centring costs one rank)
+        E0_ = preprocess(X, scaling)
+        rk_ = int(np.linalg.matrix_rank(E0_, tol=1e-9 * max(1.0, np.abs(E0_).max()))) if np.abs(E0_).max() > 0 else 0
+        if rk_ == 0:
+            continue
+        npc = min(npc, rk_)
         kind = rng.choice(("plain", "rowperm", "colperm", "rotate"))
         if kind == "rotate" and scaling not in (0,):
             kind = "plain"
-        lines.append("pca %s %s %d %d 1" % (vf.fmt_mat(X.tolist(), m), vf.fmt_mat([X[0].tolist()], m), scaling, npc))
+        lines.append("pca %s %s %d %d %d" % (vf.fmt_mat(X.tolist(), m), vf.fmt_mat([X[0].tolist()], m), scaling, npc, nproc))
         meta.append(("base", X, scaling, npc, mag, kind))
         if kind == "rowperm":
             perm = list(range(n))
@@ -71,12 +81,12 @@ def run(ck, rng, tier):
         else:
             perm, X2 = None, None
         if X2 is not None:
-            lines.append("pca %s %s %d %d 1" % (vf.fmt_mat(X2.tolist(), m), vf.fmt_mat([X2[0].tolist()], m), scaling, npc))
+            lines.append("pca %s %s %d %d %d" % (vf.fmt_mat(X2.tolist(), m), vf.fmt_mat([X2[0].tolist()], m), scaling, npc, nproc))
             meta.append((kind, X2, scaling, npc, mag, perm))
         ck.count("scaling %d" % scaling)
         ck.count("magnitude %g" % mag)
         ck.count("metamorphic %s" % kind)
-    rc, outs, err = vf.run_driver(exe, "cap 5000000\n" + "\n".join(lines) + "\n", timeout=1500)
+    rc, outs, err = vf.run_driver(exe, "cap 400000\n" + "\n".join(lines) + "\n", timeout=1500)
     if rc != 0 or len(outs) != len(meta):
         ck.broken("driver drv_pca", "rc=%s cases=%d/%d %s" % (rc, len(outs), len(meta), err[-800:]))
         return
@@ -104,6 +114,8 @@ def run(ck, rng, tier):
             # only components whose eigenvalue is separated from the next (ratio of singular values <= 0.9) are judged
             for k in range(npc):
                 if k + 1 < len(w) and w[k + 1] / w[k] > 0.81 + 1e-9:
+                    break
+                if w[k] <= 1e-12 * tr:
                     break
                 share = 100 * w[k] / tr
                 cosang = abs(float(P[:, k] @ V[:, k]))
